@@ -55,7 +55,7 @@ def run(tier, seed, replay):
                     bsb = min(12, top.cluster_bits)
                     l2 = (max(l2[0], bsb), max(l2[1], 2 << max(l2[0], bsb))) if l2 else l2
                     rb = (max(rb[0], bsb), max(rb[1], 2 << max(rb[0], bsb))) if rb else rb
-                while top.size % (1 << bsb) and bsb > 9:
+                while any(dd.size % (1 << bsb) for dd in descs) and bsb > 9:   # every image of the chain is read at block granularity
                     bsb -= 1
                 g = hist.Geom(top.cluster_bits, top.refcount_order, top.size, bsb, l2, rb)
                 params = g.params(ro=rng.choice([0, 1]))
@@ -67,6 +67,18 @@ def run(tier, seed, replay):
             for (off, ln) in sweep_lines(top.size, bs, max(4 * cs, 4096)):
                 lines.append('R %d %d' % (off, ln))
                 plan.append(('R', off, ln, flat.read(off, ln)))
+            # partial reads: from the start / the middle of a cluster, lengths that are no power of two, across clusters
+            nb = top.size // bs
+            cpb = max(1, cs // bs)
+            for _ in range(8):
+                gc = rng.choice(sorted(top.clusters)) if top.clusters and rng.random() < 0.8 else rng.randrange(0, max(1, top.size // cs))
+                b0 = gc * cpb + (0 if rng.random() < 0.5 else rng.randrange(0, cpb))
+                k = rng.choice([1, 3, 3, 5, 6, 7, cpb - 1, cpb + 1])
+                if b0 >= nb or k <= 0:
+                    continue
+                k = min(k, nb - b0)
+                lines.append('R %d %d' % (b0 * bs, k * bs))
+                plan.append(('R', b0 * bs, k * bs, flat.read(b0 * bs, k * bs)))
         lines.append('end')
         cases.append({'cid': cid, 'text': '\n'.join(lines) + '\n', 'plan': plan, 'descs': descs, 'truth': truths[0], 'paths': paths})
         for c in top.clusters.values():
@@ -197,7 +209,7 @@ def run(tier, seed, replay):
         print('  finding [%s]: %s' % (cls, desc[:300]))
     shutil.rmtree(d, ignore_errors=True)
     cov = {'evaluations': len(cases) * 2 + len(grid), 'distinct_nontrivial': len(set(open(p, 'rb').read() if os.path.exists(p) else p for c in cases for p in c['paths'][:1])) if False else len(cases), 'nontrivial_rule': 'independently built images (each from its own random description)',
-           'rule': 'independent builder: v2/v3, cluster_bits 9..16, all refcount widths, random placement with gaps, packed compressed runs, zero / preallocated-zero clusters, backing file (shorter, equal, longer), extensions; each opened with default and with random custom parameters, get_mapping + full read sweep against ground truth; format_qcow2 over a (size, cluster_bits, refcount_order, block size) grid judged by the specification checker',
+           'rule': 'independent builder: v2/v3, cluster_bits 9..16, all refcount widths, random placement with gaps, packed compressed runs, zero / preallocated-zero clusters, backing file (shorter, equal, longer), extensions; each opened with default and with random custom parameters, get_mapping + full read sweep + partial reads (cluster start / middle, non-power-of-two lengths, across clusters) against ground truth; format_qcow2 over a (size, cluster_bits, refcount_order, block size) grid judged by the specification checker',
            'samples': [{'image': 'v%d cb=%d ro=%d size=%d' % (c['descs'][0].version, c['descs'][0].cluster_bits, c['descs'][0].refcount_order, c['descs'][0].size), 'kinds': dict(collections.Counter(x[0] for x in c['descs'][0].clusters.values()))} for c in cases[:3]],
            'programs': len(cases), 'disagreements_checked': len(finds), 'distribution': dict(stats), 'format_grid': len(grid)}
     return common.finish('C09', tier, seed, 'exploration', gate, cov, t, violations, known,
